@@ -79,7 +79,8 @@ m("c15-transition-length-check-deleted", ["C15"], "stochastic.py", "            
 m("c15-prefix-check-deleted", ["C15"], "stochastic.py", "                ) != self.left_terminal.generate_string(False):", "                ) != self.left_terminal.generate_string(False) and False:")
 # ---- C16
 m("c16-normalise-over-all-descriptors", ["C16"], "molecule.py", "                for element_bd in element.bond_descriptors:\n                    if graph_bd.is_compatible(element_bd):\n                        if bond_descriptors[element_bd] in element.repeat_tokens:\n                            repeat_weight += element_bd.weight", "                for element_bd in element.bond_descriptors:\n                    if True:\n                        if bond_descriptors[element_bd] in element.repeat_tokens:\n                            repeat_weight += element_bd.weight")
-m("c16-terminal-filter-dropped", ["C16"], "molecule.py", "                            and graph_bd.is_compatible(element.right_terminal)\n                            and bond_descriptors[graph_bd] in element.repeat_tokens\n                            and other_bd.weight > 0\n                        ):\n                            total_weight += other_bd.weight", "                            and bond_descriptors[graph_bd] in element.repeat_tokens\n                            and other_bd.weight > 0\n                        ):\n                            total_weight += other_bd.weight")
+# (the first version dropped the terminal filter from the normalisation sum only: equivalent, the edge loop keeps the filter and the sum is unused)
+m("c16-terminal-filter-dropped", ["C16"], "molecule.py", "                            and graph_bd.is_compatible(element.right_terminal)\n                            and bond_descriptors[graph_bd] in element.repeat_tokens\n                            and other_bd.weight > 0\n                        ):\n                            G.add_edge(", "                            and bond_descriptors[graph_bd] in element.repeat_tokens\n                            and other_bd.weight > 0\n                        ):\n                            G.add_edge(")
 # ---- C17
 m("c17-wrong-token-offset", ["C17", "C18"], "stochastic_atom_graph.py", "                        second_atom = other_bd.atom_bonding_to + nested_offset[other_bd_token_idx]\n\n", "                        second_atom = other_bd.atom_bonding_to + nested_offset[graph_bd_token_idx]\n\n")
 m("c17-source-weight", ["C17"], "stochastic_atom_graph.py", "                                stochastic_weight=other_bd.weight,", "                                stochastic_weight=graph_bd.weight,")
